@@ -218,4 +218,12 @@ theorem lookup_loop_watches_done_in_source :
     (GV.Gen.Selects.selects.filter (fun s => s.fn == "client.lookupRegion")).map (·.cases)
       = [["default", "recv:c.done"]] := by decide
 
+/-- Regenerated from region/new.go (`Dial`, fixes 929dc0f and 31e64ef): inside `dialOnce.Do` the
+region client asks "am I closed?" before it dials (a client closed before anybody dialled it does
+not connect at all) and again right after it has stored the connection and before it says hello
+(a client closed while the dialer was connecting closes what the dialer hands out, whatever happens
+to the hello): no connection is opened, or left open, by a region client after its `Close`. -/
+theorem dial_checks_closed_before_and_after_in_source :
+    GV.Gen.Exits.dialSteps = ["closed?", "dial", "store", "closed?", "hello"] := by decide
+
 end GV.ConnCache
